@@ -119,3 +119,17 @@ void h_cpxarr(void) {
   }
   HARNESS_END();
 }
+/* resize of an xoptional_vector whose element construction may throw (fault schedule symbolic): both storages and size() agree afterwards */
+static u8 g_sched[8]; static int g_k;
+i32 hook_throw(i32 site) { (void)site; if (g_k < 8 && g_sched[g_k++]) return 1; return 0; }
+void h_optvec_throw(void) {
+  IN(u8, rz); IN_ARR(u8, sched, 8); VASSUME(rz < 4); for (int i = 0; i < 8; i++) { VASSUME(sched[i] < 2); g_sched[i] = sched[i]; } g_k = 0;
+  i64 out[5] = {-7, -7, -7, -7, -7};
+  w_optvec_throw(N0, N1, rz, (u64*)out);
+  if (out[4] == 2) {
+    VASSERT(out[0] == out[1] && out[1] == out[2], "value storage, flag storage and size() have the same length after a resize, also when an element constructor threw");
+    if (!out[3]) VASSERT(out[0] == N1, "a resize that does not throw yields the requested size");
+  }
+  WITNESS("resize_threw", out[4] == 2 && out[3] == 1);
+  HARNESS_END();
+}
